@@ -28,6 +28,17 @@ def Prog.bind {K V R S : Type} : Prog K V R → (R → Prog K V S) → Prog K V 
   | .read k cont, f => .read k (fun v => (cont v).bind f)
   | .write k v cont, f => .write k v (cont.bind f)
 
+/-- a thread that runs several operations one after the other: the programs in sequence, the results as a list -/
+def Prog.seqList {K V R : Type} : List (Prog K V R) → Prog K V (List R)
+  | [] => .ret []
+  | p :: rest => p.bind fun r => (Prog.seqList rest).bind fun rs => .ret (r :: rs)
+
+/-- the results of a sequence of operations are accepted pointwise (same length) -/
+def accAll {R : Type} : List (R → Prop) → List R → Prop
+  | [], [] => True
+  | a :: as, r :: rs => a r ∧ accAll as rs
+  | _, _ => False
+
 /-- what a thread knows about a cell: `canon` once it has read or written the canonical value -/
 inductive Phase
   | any
